@@ -727,10 +727,15 @@ impl DhtNetworkManager {
             value: value.clone(),
         };
 
-        // Find closest nodes for replication using network lookup
-        let closest_nodes = self
+        // Find closest nodes for replication using network lookup. The lookup result
+        // ranks the local node with everybody else; the local copy is written directly
+        // below, so only the remote members are sent a PUT.
+        let closest_nodes: Vec<DHTNode> = self
             .find_closest_nodes_network(&key, self.config.replication_factor)
-            .await?;
+            .await?
+            .into_iter()
+            .filter(|node| !self.is_local_peer_id(&node.peer_id))
+            .collect();
 
         debug!(
             "find_closest_nodes returned {} nodes for key: {}",
